@@ -761,7 +761,7 @@ def revive(case: Case) -> Case:
     if case.payload is not None:
         return case
     s = G.parse_sexp(case.line)
-    if s[0] in ("sched", "sharedsub", "rulereeval", "rhist"):
+    if s[0] in ("sched", "sharedsub", "sharedroot", "rulereeval", "rhist"):
         return case
     d = {(p[0] if isinstance(p, list) else p): (p[1:] if isinstance(p, list) else []) for p in s[1:]}
     fake = G.parse_query("(q (sel) (objs " + " ".join(_unparse(o) for o in d["objs"]) + ") (doms " +
@@ -784,7 +784,7 @@ def _unparse(s) -> str:
 
 
 def nontrivial(case: Case, spec: str) -> bool:
-    if case.line in ("(sharedsub)", "(rulereeval)"):
+    if case.line in ("(sharedsub)", "(sharedroot)", "(rulereeval)"):
         return False
     if case.line.startswith("(rhist"):
         return case.line.count("(next") + case.line.count("(full") >= 2 and case.line.count("(h ") >= 2
@@ -981,6 +981,21 @@ def _shared_sub() -> str:
     return "[" + " ".join(G.show_row((r,)) for r in q1.evaluate()) + "]"
 
 
+def _shared_root() -> str:
+    """F-C03-7 (open, by witness alone): one attribute expression is the WHOLE condition of a query that is evaluated, and
+    afterwards an operand in a second query: the node keeps its cached `_conditions_root_`, so its falsy value is read as a
+    false result and the second query loses the answer it has when run alone"""
+    from krrood.entity_query_language.entity import let, entity
+    from krrood.entity_query_language.quantify_entity import an
+    objs = [G.P(i, 0, {"f": f}) for i, f in enumerate([False, True])]
+    x = let(object, objs, name="x")
+    xf = x.f
+    q1 = an(entity(x, xf))
+    list(q1.evaluate())
+    q2 = an(entity(x, xf == False))  # noqa: E712
+    return "[" + " ".join(G.show_row((r,)) for r in q2.evaluate()) + "]"
+
+
 def _rule_reeval() -> str:
     """F-C03-2 (fixed, corpus case): a rule query with a conclusion selector (alternative) evaluated twice"""
     from dataclasses import dataclass
@@ -1023,6 +1038,8 @@ def _one(case: Case) -> str:
             return _rule_reeval()
         if case.line == "(sharedsub)":
             return _shared_sub()
+        if case.line == "(sharedroot)":
+            return _shared_root()
         if case.line.startswith("(sched"):
             return _run_sched(case.line)
         if case.line.startswith("(rhist"):
